@@ -282,7 +282,11 @@ class LineInterp(sym.Interp):
             raise Raised(TypeError('figure_tax status is not an enum member'), node)
         scls = status.cls if isinstance(status, SV) else type(status)
         sort = sym.enum_sort(scls)[0]
-        fn = z3.Function(f'tax_{self.cat.year}', sort, z3.RealSort(), z3.RealSort())
+        # the contract applied is that of the function actually called: the schedule of the year of ITS module (C07 checks, per caller,
+        # that this is the caller's own year)
+        import re as _re
+        m = _re.search(r'\.ty(\d{4})\.', getattr(f, '__module__', '') or '')
+        fn = z3.Function(f'tax_{m.group(1) if m else self.cat.year}', sort, z3.RealSort(), z3.RealSort())
         pre = getattr(self.run.path, 'call_pre', [])
         pre.append(('figure_tax', getattr(node, 'lineno', 0), z3.And(a >= 0, a <= z3.RealVal(10) ** 12), list(self.run.path.conds)))
         self.run.path.call_pre = pre
